@@ -573,6 +573,13 @@ func e1bRun(c *Ctx) {
 		c.Capped("TLA+ model part skipped: java not found")
 		return
 	}
+	if exe, err := os.Executable(); err == nil {
+		if info, err := os.ReadFile(exe + ".info"); err == nil && !strings.Contains(string(info), "uncontrolled=0") {
+			sum.Conformance = "skipped: the code under test synchronises through constructs the scheduler does not own (" + strings.TrimSpace(string(info)) + "); directed replays are not possible"
+			c.Capped("TLA+ model part skipped: uncontrolled synchronisation in the code under test")
+			return
+		}
+	}
 	dir, err := os.MkdirTemp(filepath.Join(verifRoot, "build"), "tla.")
 	if err != nil {
 		c.HarnessError("cannot create scratch dir: " + err.Error())
